@@ -546,6 +546,7 @@ func main() {
 	if report.Thorough() {
 		depth = 8
 	}
+	erace()
 	explore(5*time.Second, 2*time.Second, depth, false)
 	explore(30*time.Second, 10*time.Second, depth-1, false)
 	explore(7*time.Second, 3*time.Second, 3, true)
